@@ -24,7 +24,8 @@ Proof. vm_compute. auto 10. Qed.
 Lemma cache_pure :
   pkg_vars_ok generated_pkg_vars = true /\
   methods_readonly ["UnmarshalBinary"] generated_merklizer_methods = true /\
-  methods_readonly [] generated_loader_methods = true.
+  methods_readonly [] generated_loader_methods = true /\
+  shared_writes_ok generated_loader_shared_writes = true.
 Proof. vm_compute. repeat split; reflexivity. Qed.
 
 (* the generic theorem at the generated program *)
